@@ -255,6 +255,13 @@ def run(check, an: Analysis):
     sel_ok = outcomes == {'SD': 'SDWaitQueue', '': 'HQWaitQueue', 'other': 'raise'}
     check.instance('S', 'selector:strict', sel_ok, waitq.relpath,
                    'USIM_WAITQUEUE selects HQ or SD and anything else raises: %s' % outcomes)
+    # ---- G ------------------------------------------------------------------
+    # no activity is left to the garbage collector (whose timing depends on unrelated
+    # allocations): every way out of a scope closes its children (rule shared with C04)
+    from . import c04, _scope
+    check.rule('G', 'no activity is finalised by the garbage collector: every way out of a '
+                    'scope runs the closing sequence (rule shared with C04)')
+    c04.check_close_on_every_exit(check, an, 'G', _scope.scope_receivers(an))
     # ---- D ------------------------------------------------------------------
     n_assert, bad_assert = 0, []
     for fn, frame in rules.all_frames(an):
